@@ -874,6 +874,12 @@ func (r *runner) readCVOp() {
 	if p || !strings.HasPrefix(out, "const i32 c = ") {
 		return
 	}
+	// only where the round trip holds: otherwise the dumped text is damaged (stray quotes, `#` starting a
+	// comment outside a literal) and no longer a constant value in the sense of the reader model
+	if back, err := safeParse("a.thrift", out); err != nil || diffAST(a, back).path != "" {
+		r.out.Count("op:V/dumped/skipped-damaged-text")
+		return
+	}
 	t2 := strings.TrimSuffix(strings.TrimPrefix(out, "const i32 c = "), "\n\n")
 	var p2 []string
 	astPairs(a.Constants[0].Value, &p2)
